@@ -86,6 +86,14 @@ impl RouterSocket {
     self.identity_finalized_notify.notify_waiters();
   }
 
+  /// A freshly popped batch may be handed out directly only if its pipe is finalized AND nothing
+  /// older of that pipe is still held (the pipe may have finalized since the held batches were last
+  /// looked at): otherwise it queues up behind them.
+  fn may_deliver_directly(&self, pipe_read_id: usize) -> bool {
+    self.pipe_finalized.contains_key(&pipe_read_id)
+      && (self.held_count.load(Ordering::Acquire) == 0 || !self.held_ingress.lock().contains_key(&pipe_read_id))
+  }
+
   /// Buffers a batch that arrived before its pipe finalized.
   fn hold_pending_batch(&self, pipe_read_id: usize, batch: FrameBatch) {
     self
@@ -147,7 +155,7 @@ impl RouterSocket {
           .ingress_engine
           .recv_logical_message(Some(Duration::ZERO))
           .await?;
-        if self.pipe_finalized.contains_key(&pid) {
+        if self.may_deliver_directly(pid) {
           return Ok((pid, batch));
         }
         // Pending: buffer it and re-loop; if nothing else is ready the next
@@ -175,7 +183,7 @@ impl RouterSocket {
         }
         popped = self.ingress_engine.pop() => {
           let (pid, batch) = popped?;
-          if self.pipe_finalized.contains_key(&pid) {
+          if self.may_deliver_directly(pid) {
             return Ok((pid, batch));
           }
           self.hold_pending_batch(pid, batch);
